@@ -36,7 +36,7 @@ fn match_rhat(got: f64, chains: &rs::Chains, rtol: f64) -> (bool, &'static str, 
     }
 }
 
-fn check_arr(case: &ArrCase, cov: &mut Cov) -> CheckResult {
+pub fn check_arr(case: &ArrCase, cov: &mut Cov) -> CheckResult {
     let per_param = gen_all(case);
     let arr = to_array3(&per_param);
     let (rhat, _ess) = lib_rhat_ess(&arr)?;
@@ -296,7 +296,7 @@ fn summary_strategy() -> BoxedStrategy<SummaryCase> {
     }))
 }
 
-fn check_summary(case: &SummaryCase, cov: &mut Cov) -> CheckResult {
+pub fn check_summary(case: &SummaryCase, cov: &mut Cov) -> CheckResult {
     let v32: Vec<f32> = case.values.iter().map(|r| r.0 as f32).collect();
     let n = v32.len();
     let has_nan = v32.iter().any(|x| x.is_nan());
@@ -353,7 +353,7 @@ fn check_summary(case: &SummaryCase, cov: &mut Cov) -> CheckResult {
 
 /// RunStats::from on generated arrays incl. constant parameters: never panics; when all
 /// per-parameter diagnostics are finite the summary equals the statistics of those values.
-fn check_runstats(case: &ArrCase, cov: &mut Cov) -> CheckResult {
+pub fn check_runstats(case: &ArrCase, cov: &mut Cov) -> CheckResult {
     let per_param = gen_all(case);
     let arr = to_array3(&per_param);
     let rs_ = no_panic(|| RunStats::from(arr.view()))
